@@ -188,11 +188,20 @@ class VariablesCollector(ValidationVisitor):
             ).append((node, input_type, input_value_def))
 
     def _flatten_fragments(self):
-        for parent, children in self._fragment_fragments.items():
-            for child in deduplicate(children):
-                for op in self._op_fragments.keys():
-                    if parent in self._op_fragments[op]:
-                        self._op_fragments[op].append(child)
+        # Transitive closure of the fragments spread by each operation,
+        # independent of the order in which definitions appear.
+        for op in list(self._op_fragments.keys()):
+            reachable = list(deduplicate(self._op_fragments[op]))
+            index = 0
+            while index < len(reachable):
+                parent = reachable[index]
+                index += 1
+                if parent not in self._fragment_fragments:
+                    continue
+                for child in self._fragment_fragments[parent]:
+                    if child not in reachable:
+                        reachable.append(child)
+            self._op_fragments[op] = reachable
 
     def leave_document(self, _):
         self._flatten_fragments()
